@@ -5,13 +5,18 @@ import ClairModel.Model.RpmDb
 
 namespace ClairModel.RpmDb
 
-/-- total number of sections (= overflow pages linked) in a list of headers -/
-def hops (rs : List Rope) : Nat := (rs.map List.length).sum
+/-- overflow pages linked into one header -/
+def Hdr.hops : Hdr → Nat
+  | .ov r => r.length
+  | .inl _ => 0
+
+/-- total number of overflow pages linked into a list of headers -/
+def hops (rs : List Hdr) : Nat := (rs.map Hdr.hops).sum
 
 @[simp] theorem hops_nil : hops [] = 0 := rfl
-theorem hops_append (a b : List Rope) : hops (a ++ b) = hops a + hops b := by
+theorem hops_append (a b : List Hdr) : hops (a ++ b) = hops a + hops b := by
   simp [hops, List.map_append, List.sum_append]
-theorem hops_single (r : Rope) : hops [r] = r.length := by simp [hops]
+theorem hops_single (h : Hdr) : hops [h] = h.hops := by simp [hops]
 
 namespace Bdb
 
@@ -51,32 +56,40 @@ theorem chain_count (db : Db) (n : Nat) (vis : List Bool) (acc : Rope) (rope : R
     simp only [List.length_cons] at this
     omega
 
-theorem items_count (db : Db) (pageOff : Nat) (offs : List Nat) (vis : List Bool) (acc : List Rope)
-    (acc' : List Rope) (vis' : List Bool) (h : items db pageOff offs vis acc = some (acc', vis')) :
+theorem items_count (db : Db) (pageOff : Nat) (offs : List (Nat × Nat)) (vis : List Bool) (acc : List Hdr)
+    (acc' : List Hdr) (vis' : List Bool) (h : items db pageOff offs vis acc = some (acc', vis')) :
     hops acc' + count vis' false = hops acc + count vis false := by
   induction offs generalizing vis acc with
   | nil =>
     simp only [items] at h
     injection h with h; injection h with h1 h2; subst h1 h2; rfl
   | cons d rest ih =>
+    obtain ⟨k, d⟩ := d
     simp only [items] at h
     split at h
     · cases h
     · split at h
-      · exact ih _ _ h
       · split at h
-        · cases h
+        · have h1 := ih _ _ h
+          rw [hops_append, hops_single] at h1
+          simpa [Hdr.hops] using h1
+        · exact ih _ _ h
+      · split at h
+        · exact ih _ _ h
         · split at h
           · cases h
-          · rename_i rope vis1 hch
-            have h1 := ih _ _ h
-            have h2 := chain_count _ _ _ _ _ _ hch
-            rw [hops_append, hops_single] at h1
-            simp only [List.length_nil] at h2
-            omega
+          · split at h
+            · cases h
+            · rename_i rope vis1 hch
+              have h1 := ih _ _ h
+              have h2 := chain_count _ _ _ _ _ _ hch
+              rw [hops_append, hops_single] at h1
+              simp only [List.length_nil] at h2
+              simp only [Hdr.hops] at h1
+              omega
 
-theorem pages_count (db : Db) (n : Nat) (vis : List Bool) (acc : List Rope) (hps : 0 < db.pageSz)
-    (rs : List Rope) (h : pages db n vis acc hps = some rs) :
+theorem pages_count (db : Db) (n : Nat) (vis : List Bool) (acc : List Hdr) (hps : 0 < db.pageSz)
+    (rs : List Hdr) (h : pages db n vis acc hps = some rs) :
     hops rs ≤ hops acc + count vis false := by
   fun_induction pages db n vis acc hps with
   | case1 => injection h with h; subst h; omega
